@@ -28,6 +28,14 @@ CLAIMED = {
         "DESIGN.md 4 C02",
         "",
     ),
+    "C03": (
+        "Hypothesis command trees x lines against a 25-line reference resolver; metamorphic alias / tail variants; selection also observed through run() with recording handlers",
+        "Generated command trees (aliases, default/anonymous/hidden/disabled commands, stacked formats) and lines (valid, wrong token, "
+        "unnameable command, undefined, partial, '--' tail) under a bare and the default application config; selected command, undefined / "
+        "no-default errors, parsed values and the set of handlers run are compared with the reference model.",
+        "DESIGN.md 4 C03",
+        "Parsability of default candidates is decided with the real parser (C01/C02's subject).",
+    ),
     "C05": (
         "Hypothesis operation histories on one parser instance, differential against a fresh parser per step, input snapshots",
         "Histories of valid / faulty / soup parse requests over 1-2 formats on one DefaultArgsParser, every step compared with a "
